@@ -407,6 +407,12 @@ pub fn run_c06(args: &Args) -> i32 {
             report.record(&d, || json!({"kind": "reachable", "fen": fen}));
         }
     }
+    // 5a. promotion-heavy but legally reachable material, and the longest possible texts
+    for f in PROMOTED_MATERIAL.iter().map(|s| s.to_string()).chain(LONG_PLACEMENTS.iter().flat_map(|p| ["w KQkq - 9999 9999", "b - - 0 1"].iter().map(move |t| format!("{p} {t}")))) {
+        reach_n += 1;
+        let d = c06_reachable_case(&f);
+        report.record(&d, || json!({"kind": "reachable", "fen": f}));
+    }
     // 5b. every member of the small-material families (both colours) is a playable position whose
     //     canonical FEN must be accepted and parse to that position
     {
